@@ -18,9 +18,9 @@ Section Complete.
     forall s w v, RR m s w v -> exists c sg, w = c ++ [sg] /\ ksig e s v sg /\ fr e (sc m) c [v].
   Definition cW (m : ms) : Prop :=
     exists sw, forall s w v, RR m s w v -> truthy v = s /\ forall c0, fr e (sc m) (c0 :: w) (wout sw v c0).
-  Definition comp (m : ms) (t : ty) : Prop :=
+  Definition dn_comp (m : ms) (t : ty) : Prop :=
     match c_base (t_corr t) with BB => cB m | BV => cV m | BK => cK m | BW => cW m end.
-  Definition cstmt (m : ms) : Prop := forall t, type_of m = ROk t -> wf e ke m -> comp m t.
+  Definition cstmt (m : ms) : Prop := forall t, type_of m = ROk t -> wf e ke m -> dn_comp m t.
 
   Ltac stepG := cbn [app exec exec_instr exec_op bind stk alt].
 
@@ -33,41 +33,41 @@ Section Complete.
   Qed.
 
   (* ---------- leaves ---------- *)
-  Lemma c_true : cB MTrue.
+  Lemma ac_true : cB MTrue.
   Proof. intros s w v [-> [-> ->]]. split; [reflexivity|]. intros rest al. reflexivity. Qed.
-  Lemma c_false : cB MFalse.
+  Lemma ac_false : cB MFalse.
   Proof. intros s w v [-> [-> ->]]. split; [reflexivity|]. intros rest al. reflexivity. Qed.
-  Lemma c_pk_k k : cK (MPkK k).
+  Lemma ac_pk_k k : cK (MPkK k).
   Proof.
     intros s w v [sg [-> [-> Hk]]]. exists [], sg. split; [reflexivity|]. split; [exact Hk|].
     intros rest al. reflexivity.
   Qed.
-  Lemma c_pkh_gen h s v sg : e_hash160 e v = h -> ksig e s v sg ->
+  Lemma ac_pkh_gen h s v sg : e_hash160 e v = h -> ksig e s v sg ->
     exists c sg', [v; sg] = c ++ [sg'] /\ ksig e s v sg' /\
       fr e [IOp OP_DUP; IOp OP_HASH160; IPush h; IOp OP_EQUALVERIFY] c [v].
   Proof.
     intros Hh Hk. exists [v], sg. split; [reflexivity|]. split; [exact Hk|].
     intros rest al. stepG. rewrite Hh, bytes_eqb_refl. reflexivity.
   Qed.
-  Lemma c_pk_h k : cK (MPkH k).
-  Proof. intros s w v [sg [-> [Hh [Hk _]]]]. apply c_pkh_gen; assumption. Qed.
-  Lemma c_raw h : cK (MRawPkH h).
-  Proof. intros s w v [_ [sg [-> [Hh Hk]]]]. apply c_pkh_gen; assumption. Qed.
+  Lemma ac_pk_h k : cK (MPkH k).
+  Proof. intros s w v [sg [-> [Hh [Hk _]]]]. apply ac_pkh_gen; assumption. Qed.
+  Lemma ac_raw h : cK (MRawPkH h).
+  Proof. intros s w v [_ [sg [-> [Hh Hk]]]]. apply ac_pkh_gen; assumption. Qed.
 
-  Lemma c_after t : (0 < t < 2147483648)%N -> cB (MAfter t).
+  Lemma ac_after t : (0 < t < 2147483648)%N -> cB (MAfter t).
   Proof.
     intros Ht s w v [-> [-> [-> Hc]]]. split; [apply num_truthy; lia|].
     intros rest al. cbn [enc app]. rewrite exec_cons, exec_push_int. cbn [bind stk alt].
     rewrite exec_single. cbn [exec_instr exec_op stk alt]. rewrite num_roundtrip by lia. rewrite Hc. reflexivity.
   Qed.
-  Lemma c_older t : (0 < t < 2147483648)%N -> cB (MOlder t).
+  Lemma ac_older t : (0 < t < 2147483648)%N -> cB (MOlder t).
   Proof.
     intros Ht s w v [-> [-> [-> Hc]]]. split; [apply num_truthy; lia|].
     intros rest al. cbn [enc app]. rewrite exec_cons, exec_push_int. cbn [bind stk alt].
     rewrite exec_single. cbn [exec_instr exec_op stk alt]. rewrite num_roundtrip by lia. rewrite Hc. reflexivity.
   Qed.
 
-  Lemma c_hash_gen (o : opcode) (hf : bytes -> bytes) h s w v :
+  Lemma ac_hash_gen (o : opcode) (hf : bytes -> bytes) h s w v :
     (forall x r al, exec_op e o (mkSt (x :: r) al) = Ok (mkSt (hf x :: r) al)) ->
     Rhash false hf h s w v -> truthy v = s /\ fr e (hash_frag o h) w [v].
   Proof.
@@ -82,14 +82,14 @@ Section Complete.
   Qed.
 
   (* ---------- wrappers ---------- *)
-  Lemma c_alt x : cB x -> cW (MAlt x).
+  Lemma ac_alt x : cB x -> cW (MAlt x).
   Proof.
     intros IH. exists false. intros s w v HR. cbn [Rg] in HR. destruct (IH _ _ _ HR) as [Ht Hfr].
     split; [exact Ht|]. intros c0 rest al. cbn [enc app]. rewrite exec_op_cons. cbn [exec_op stk alt bind].
     rewrite exec_app, Hfr. cbn [bind]. rewrite exec_single. reflexivity.
   Qed.
 
-  Lemma c_swap x i u : cB x -> invB e (sc x) i u -> i = IOne \/ i = IOneNonZero -> cW (MSwap x).
+  Lemma ac_swap x i u : cB x -> invB e (sc x) i u -> i = IOne \/ i = IOneNonZero -> cW (MSwap x).
   Proof.
     intros IH Hinv Hi. exists true. intros s w v HR. cbn [Rg] in HR. destruct (IH _ _ _ HR) as [Ht Hfr].
     split; [exact Ht|]. pose proof (cB_cnt x i u s w v IH Hinv HR) as Hc.
@@ -99,7 +99,7 @@ Section Complete.
     apply (Hfr (c0 :: rest) al).
   Qed.
 
-  Lemma c_check x : cK x -> cB (MCheck x).
+  Lemma ac_check x : cK x -> cB (MCheck x).
   Proof.
     intros IH s w v HR. cbn [Rg] in HR. destruct HR as [-> [key HR]].
     destruct (IH _ _ _ HR) as [c [sg [-> [[Hk Hs] Hfr]]]]. split; [apply truthy_bool|].
@@ -109,7 +109,7 @@ Section Complete.
     - subst sg. reflexivity.
   Qed.
 
-  Lemma c_dupif x : cV x -> cB (MDupIf x).
+  Lemma ac_dupif x : cV x -> cB (MDupIf x).
   Proof.
     intros IH s w v HR. cbn [Rg] in HR. destruct HR as [-> [Hc [Hx _]]].
     split; [apply (if_cond_truthy e v s Hc)|].
@@ -118,14 +118,14 @@ Section Complete.
     destruct (IH _ _ _ (Hx eq_refl)) as [_ [_ Hfr]]. apply (Hfr (v :: rest) al).
   Qed.
 
-  Lemma c_verify x : cB x -> cV (MVerify x).
+  Lemma ac_verify x : cB x -> cV (MVerify x).
   Proof.
     intros IH s w v HR. cbn [Rg] in HR. destruct HR as [-> [-> [v' HR]]]. destruct (IH _ _ _ HR) as [Ht Hfr].
     split; [reflexivity|]. split; [reflexivity|]. intros rest al. cbn [enc]. rewrite push_verify_exec, Hfr.
     cbn [bind exec_op stk alt app]. rewrite Ht. reflexivity.
   Qed.
 
-  Lemma c_nonzero x : cB x -> cB (MNonZero x).
+  Lemma ac_nonzero x : cB x -> cB (MNonZero x).
   Proof.
     intros IH s w v HR. cbn [Rg] in HR. destruct HR as [[-> [-> ->]]|[a [r [-> [Hne [Hsz [HR _]]]]]]].
     - split; [reflexivity|]. intros rest al. cbn [enc app]. rewrite exec_op_cons. cbn [exec_op stk alt bind].
@@ -140,7 +140,7 @@ Section Complete.
       rewrite exec_single, exec_if. cbn [stk alt]. rewrite if_cond_one. cbn [xorb]. apply (Hfr rest al).
   Qed.
 
-  Lemma c_zne x : cB x -> cB (MZeroNotEqual x).
+  Lemma ac_zne x : cB x -> cB (MZeroNotEqual x).
   Proof.
     intros IH s w v HR. cbn [Rg] in HR. destruct HR as [-> [v' [HR [z Hz]]]]. destruct (IH _ _ _ HR) as [Ht Hfr].
     split; [apply truthy_bool|]. intros rest al. cbn [enc]. rewrite exec_app, Hfr. cbn [bind app].
@@ -149,19 +149,19 @@ Section Complete.
   Qed.
 
   (* ---------- and_v ---------- *)
-  Lemma c_andv_B x y : cV x -> cB y -> cB (MAndV x y).
+  Lemma ac_andv_B x y : cV x -> cB y -> cB (MAndV x y).
   Proof.
     intros IHx IHy s w v HR. cbn [Rg] in HR. destruct HR as [wx [wy [-> [Hx Hy]]]].
     destruct (IHx _ _ _ Hx) as [_ [_ Hfx]]. destruct (IHy _ _ _ Hy) as [Ht Hfy]. split; [exact Ht|].
     cbn [enc]. eapply fr_app; [exact Hfx | exact Hfy].
   Qed.
-  Lemma c_andv_V x y : cV x -> cV y -> cV (MAndV x y).
+  Lemma ac_andv_V x y : cV x -> cV y -> cV (MAndV x y).
   Proof.
     intros IHx IHy s w v HR. cbn [Rg] in HR. destruct HR as [wx [wy [-> [Hx Hy]]]].
     destruct (IHx _ _ _ Hx) as [_ [_ Hfx]]. destruct (IHy _ _ _ Hy) as [Hs [Hv Hfy]].
     split; [exact Hs|]. split; [exact Hv|]. cbn [enc]. eapply fr_app; [exact Hfx | exact Hfy].
   Qed.
-  Lemma c_andv_K x y : cV x -> cK y -> cK (MAndV x y).
+  Lemma ac_andv_K x y : cV x -> cK y -> cK (MAndV x y).
   Proof.
     intros IHx IHy s w v HR. cbn [Rg] in HR. destruct HR as [wx [wy [-> [Hx Hy]]]].
     destruct (IHx _ _ _ Hx) as [_ [_ Hfx]]. destruct (IHy _ _ _ Hy) as [c [sg [-> [Hk Hfy]]]].
@@ -190,7 +190,7 @@ Section Complete.
     exec_op e OP_BOOLOR (mkSt (x :: y :: r) al) = Ok (mkSt (bool_bytes (negb (n1 =? 0)%Z || negb (n2 =? 0)%Z) :: r) al).
   Proof. intros H1 H2. cbn [exec_op stk alt]. rewrite H1, H2. reflexivity. Qed.
 
-  Lemma c_andb x y : cB x -> cW y -> cB (MAndB x y).
+  Lemma ac_andb x y : cB x -> cW y -> cB (MAndB x y).
   Proof.
     intros IHx [sw IHy] s w v HR. cbn [Rg] in HR.
     destruct HR as [wx [wy [vx [vy [sx [sy [-> [Hx [Hy [Nx [Ny [-> [-> _]]]]]]]]]]]]].
@@ -199,7 +199,7 @@ Section Complete.
     pose proof (Hfy vx rest al) as H; cbn [app] in H; rewrite H; clear H. cbn [bind]. rewrite exec_single. cbn [exec_instr].
     apply (bool_op_run OP_BOOLAND andb sw vx vy sx sy andb_comm booland_op Htx Hty Nx Ny).
   Qed.
-  Lemma c_orb x y : cB x -> cW y -> cB (MOrB x y).
+  Lemma ac_orb x y : cB x -> cW y -> cB (MOrB x y).
   Proof.
     intros IHx [sw IHy] s w v HR. cbn [Rg] in HR.
     destruct HR as [wx [wy [vx [vy [sx [sy [-> [Hx [Hy [Nx [Ny [-> [-> _]]]]]]]]]]]]].
@@ -210,7 +210,7 @@ Section Complete.
   Qed.
 
   (* ---------- or_c / or_d ---------- *)
-  Lemma c_orc x z : cB x -> cV z -> cV (MOrC x z).
+  Lemma ac_orc x z : cB x -> cV z -> cV (MOrC x z).
   Proof.
     intros IHx IHz s w v HR. cbn [Rg] in HR. destruct HR as [-> [-> HR]]. split; [reflexivity|]. split; [reflexivity|].
     destruct HR as [[vx [Hx Hc]]|[wx [wy [vx [-> [Hx [Hc Hz]]]]]]].
@@ -220,7 +220,7 @@ Section Complete.
       intros rest al. cbn [enc]. rewrite exec_app, <- app_assoc, Hfx. cbn [bind app].
       rewrite exec_single, exec_if. cbn [stk alt]. rewrite Hc. cbn [xorb]. apply Hfz.
   Qed.
-  Lemma c_ord x z : cB x -> cB z -> cB (MOrD x z).
+  Lemma ac_ord x z : cB x -> cB z -> cB (MOrD x z).
   Proof.
     intros IHx IHz s w v HR. cbn [Rg] in HR. destruct HR as [[-> [Hx Hc]]|[wx [wy [vx [-> [Hx [Hc Hz]]]]]]].
     - destruct (IHx _ _ _ Hx) as [Ht Hfx]. split; [exact Ht|]. intros rest al. cbn [enc].
@@ -239,19 +239,19 @@ Section Complete.
     intros Hc Hf rest al. cbn [enc app]. rewrite exec_single, exec_if. cbn [stk alt]. rewrite Hc.
     destruct b; cbn [xorb]; apply Hf.
   Qed.
-  Lemma c_ori_B x z : cB x -> cB z -> cB (MOrI x z).
+  Lemma ac_ori_B x z : cB x -> cB z -> cB (MOrI x z).
   Proof.
     intros IHx IHz s w v HR. cbn [Rg] in HR. destruct HR as [sel [w' [b [-> [Hc [HR _]]]]]]. destruct b.
     - destruct (IHx _ _ _ HR) as [Ht Hf]. split; [exact Ht|]. apply (ori_fr x z sel true _ _ Hc Hf).
     - destruct (IHz _ _ _ HR) as [Ht Hf]. split; [exact Ht|]. apply (ori_fr x z sel false _ _ Hc Hf).
   Qed.
-  Lemma c_ori_V x z : cV x -> cV z -> cV (MOrI x z).
+  Lemma ac_ori_V x z : cV x -> cV z -> cV (MOrI x z).
   Proof.
     intros IHx IHz s w v HR. cbn [Rg] in HR. destruct HR as [sel [w' [b [-> [Hc [HR _]]]]]]. destruct b.
     - destruct (IHx _ _ _ HR) as [Hs [Hv Hf]]. split; [exact Hs|]. split; [exact Hv|]. apply (ori_fr x z sel true _ _ Hc Hf).
     - destruct (IHz _ _ _ HR) as [Hs [Hv Hf]]. split; [exact Hs|]. split; [exact Hv|]. apply (ori_fr x z sel false _ _ Hc Hf).
   Qed.
-  Lemma c_ori_K x z : cK x -> cK z -> cK (MOrI x z).
+  Lemma ac_ori_K x z : cK x -> cK z -> cK (MOrI x z).
   Proof.
     intros IHx IHz s w v HR. cbn [Rg] in HR. destruct HR as [sel [w' [b [-> [Hc [HR _]]]]]]. destruct b.
     - destruct (IHx _ _ _ HR) as [c [sg [-> [Hk Hf]]]]. exists (sel :: c), sg. split; [reflexivity|]. split; [exact Hk|].
@@ -267,14 +267,14 @@ Section Complete.
     intros Hfa Hc Hf rest al. cbn [enc]. rewrite exec_app, <- app_assoc, Hfa. cbn [bind app].
     rewrite exec_single, exec_if. cbn [stk alt]. rewrite Hc. destruct cnd; cbn [xorb]; apply Hf.
   Qed.
-  Lemma c_andor_B a b c : cB a -> cB b -> cB c -> cB (MAndOr a b c).
+  Lemma ac_andor_B a b c : cB a -> cB b -> cB c -> cB (MAndOr a b c).
   Proof.
     intros IHa IHb IHc s w v HR. cbn [Rg] in HR.
     destruct HR as [wa [w' [va [-> [[Ha [Hc [HR _]]]|[Ha [Hc HR]]]]]]]; destruct (IHa _ _ _ Ha) as [_ Hfa].
     - destruct (IHb _ _ _ HR) as [Ht Hf]. split; [exact Ht|]. apply (andor_fr a b c wa va true _ _ Hfa Hc Hf).
     - destruct (IHc _ _ _ HR) as [Ht Hf]. split; [exact Ht|]. apply (andor_fr a b c wa va false _ _ Hfa Hc Hf).
   Qed.
-  Lemma c_andor_V a b c : cB a -> cV b -> cV c -> cV (MAndOr a b c).
+  Lemma ac_andor_V a b c : cB a -> cV b -> cV c -> cV (MAndOr a b c).
   Proof.
     intros IHa IHb IHc s w v HR. cbn [Rg] in HR.
     destruct HR as [wa [w' [va [-> [[Ha [Hc [HR _]]]|[Ha [Hc HR]]]]]]]; destruct (IHa _ _ _ Ha) as [_ Hfa].
@@ -283,7 +283,7 @@ Section Complete.
     - destruct (IHc _ _ _ HR) as [Hs [Hv Hf]]. split; [exact Hs|]. split; [exact Hv|].
       apply (andor_fr a b c wa va false _ _ Hfa Hc Hf).
   Qed.
-  Lemma c_andor_K a b c : cB a -> cK b -> cK c -> cK (MAndOr a b c).
+  Lemma ac_andor_K a b c : cB a -> cK b -> cK c -> cK (MAndOr a b c).
   Proof.
     intros IHa IHb IHc s w v HR. cbn [Rg] in HR.
     destruct HR as [wa [w' [va [-> [[Ha [Hc [HR _]]]|[Ha [Hc HR]]]]]]]; destruct (IHa _ _ _ Ha) as [_ Hfa].
@@ -321,7 +321,7 @@ Section Complete.
         apply (IH j wr acc rest al s' H2); lia.
   Qed.
 
-  Lemma c_thresh k x0 r : cB x0 -> Forall cW r ->
+  Lemma ac_thresh k x0 r : cB x0 -> Forall cW r ->
     (1 <= k <= N.of_nat (S (length r)))%N -> (S (length r) < 1000)%nat -> cB (MThresh k (x0 :: r)).
   Proof.
     intros IH0 IHr Hk Hn s w v HR. cbn [Rg] in HR. destruct HR as [-> [j [HR [-> _]]]]. split; [apply truthy_bool|].
@@ -343,7 +343,7 @@ Section Complete.
   Qed.
 
   (* ---------- multi ---------- *)
-  Lemma c_cms k keys : (1 <= k <= N.of_nat (length keys))%N -> (length keys <= 20)%nat -> tap e = false ->
+  Lemma ac_cms k keys : (1 <= k <= N.of_nat (length keys))%N -> (length keys <= 20)%nat -> tap e = false ->
     forall s w v, Rcms e k keys s w v ->
       truthy v = s /\
       fr e ([push_int (Z.of_N k)] ++ map IPush keys ++ [push_int (Z.of_nat (length keys)); IOp OP_CHECKMULTISIG]) w [v].
@@ -384,7 +384,7 @@ Section Complete.
         rewrite (IH j' w' (acc + 1)%Z rest al s' HR) by lia. do 4 f_equal. lia.
   Qed.
 
-  Lemma c_multi_a_gen k ks' : (1 <= k <= N.of_nat (length ks'))%N -> (length ks' < 1000)%nat -> tap e = true ->
+  Lemma ac_multi_a_gen k ks' : (1 <= k <= N.of_nat (length ks'))%N -> (length ks' < 1000)%nat -> tap e = true ->
     forall (s : bool) w v,
       (v = bool_bytes s /\ exists j, Rcsa e ke ks' w j /\ s = N.eqb (N.of_nat j) k /\ (false = true -> s = false -> j = 0%nat)) ->
       truthy v = s /\
@@ -419,7 +419,7 @@ Section Complete.
     t_cast_zeronotequal, t_and_v, t_and_b, t_or_b, t_or_c, t_or_d, t_or_i, t_and_or, lift1, lift2,
     c_cast_alt, c_cast_swap, c_cast_check, c_cast_dupif, c_cast_verify, c_cast_nonzero, c_cast_zeronotequal,
     c_and_v, c_and_b, c_or_b, c_or_c, c_or_d, c_or_i, c_and_or in H; cbn [t_corr t_mall c_base c_input c_dissat c_unit] in H.
-  Ltac red_c := unfold comp in *; cbn [t_corr c_base c_input c_unit c_dissat] in *.
+  Ltac red_c := unfold dn_comp in *; cbn [t_corr c_base c_input c_unit c_dissat] in *.
 
   Ltac one_child IH Ht Hwf tx Hg bx ix dx ux mx :=
     cbn [type_of] in Ht; apply rbind_ok in Ht; destruct Ht as [tx [Hx Ht]];
@@ -428,7 +428,7 @@ Section Complete.
   Lemma s_alt x : cstmt x -> cstmt (MAlt x).
   Proof.
     intros IH t Ht Hwf. one_child IH Ht Hwf tx Hg bx ix dx ux mx.
-    destruct bx; try discriminate. inversion Ht; subst; clear Ht. red_c. exact (c_alt x Hg).
+    destruct bx; try discriminate. inversion Ht; subst; clear Ht. red_c. exact (ac_alt x Hg).
   Qed.
   Lemma s_swap x : cstmt x -> cstmt (MSwap x).
   Proof.
@@ -436,35 +436,35 @@ Section Complete.
     pose proof (IH tx Hx Hwf) as Hg. pose proof (frame_inv e ke x tx Hx Hwf) as Hi.
     destruct tx as [[bx ix dx ux] mx]. unf Ht. unfold inv in Hi. cbn [t_corr c_base c_input c_unit] in Hi.
     destruct bx; try discriminate; destruct ix; try discriminate; inversion Ht; subst; clear Ht; red_c.
-    - exact (c_swap x _ _ Hg Hi (or_introl eq_refl)).
-    - exact (c_swap x _ _ Hg Hi (or_intror eq_refl)).
+    - exact (ac_swap x _ _ Hg Hi (or_introl eq_refl)).
+    - exact (ac_swap x _ _ Hg Hi (or_intror eq_refl)).
   Qed.
   Lemma s_check x : cstmt x -> cstmt (MCheck x).
   Proof.
     intros IH t Ht Hwf. one_child IH Ht Hwf tx Hg bx ix dx ux mx.
-    destruct bx; try discriminate. inversion Ht; subst; clear Ht. red_c. exact (c_check x Hg).
+    destruct bx; try discriminate. inversion Ht; subst; clear Ht. red_c. exact (ac_check x Hg).
   Qed.
   Lemma s_dupif x : cstmt x -> cstmt (MDupIf x).
   Proof.
     intros IH t Ht Hwf. one_child IH Ht Hwf tx Hg bx ix dx ux mx.
     destruct bx; try discriminate; destruct ix; try discriminate. inversion Ht; subst; clear Ht. red_c.
-    exact (c_dupif x Hg).
+    exact (ac_dupif x Hg).
   Qed.
   Lemma s_verify x : cstmt x -> cstmt (MVerify x).
   Proof.
     intros IH t Ht Hwf. one_child IH Ht Hwf tx Hg bx ix dx ux mx.
-    destruct bx; try discriminate. inversion Ht; subst; clear Ht. red_c. exact (c_verify x Hg).
+    destruct bx; try discriminate. inversion Ht; subst; clear Ht. red_c. exact (ac_verify x Hg).
   Qed.
   Lemma s_nonzero x : cstmt x -> cstmt (MNonZero x).
   Proof.
     intros IH t Ht Hwf. one_child IH Ht Hwf tx Hg bx ix dx ux mx.
     destruct ix; cbn in Ht; try discriminate; destruct bx; try discriminate; inversion Ht; subst; clear Ht; red_c;
-      exact (c_nonzero x Hg).
+      exact (ac_nonzero x Hg).
   Qed.
   Lemma s_zne x : cstmt x -> cstmt (MZeroNotEqual x).
   Proof.
     intros IH t Ht Hwf. one_child IH Ht Hwf tx Hg bx ix dx ux mx.
-    destruct bx; try discriminate. inversion Ht; subst; clear Ht. red_c. exact (c_zne x Hg).
+    destruct bx; try discriminate. inversion Ht; subst; clear Ht. red_c. exact (ac_zne x Hg).
   Qed.
 
   Ltac two_children IHx IHy Ht Hwf tx ty Hgx Hgy :=
@@ -478,54 +478,54 @@ Section Complete.
   Proof.
     intros IHx IHy t Ht Hwf. two_children IHx IHy Ht Hwf t1 t2 Hgx Hgy.
     destruct bx, b2; try discriminate; inversion Ht; subst; clear Ht; red_c.
-    - exact (c_andv_B x y Hgx Hgy).
-    - exact (c_andv_K x y Hgx Hgy).
-    - exact (c_andv_V x y Hgx Hgy).
+    - exact (ac_andv_B x y Hgx Hgy).
+    - exact (ac_andv_K x y Hgx Hgy).
+    - exact (ac_andv_V x y Hgx Hgy).
   Qed.
   Lemma s_and_b x y : cstmt x -> cstmt y -> cstmt (MAndB x y).
   Proof.
     intros IHx IHy t Ht Hwf. two_children IHx IHy Ht Hwf t1 t2 Hgx Hgy.
-    destruct bx, b2; try discriminate; inversion Ht; subst; clear Ht; red_c. exact (c_andb x y Hgx Hgy).
+    destruct bx, b2; try discriminate; inversion Ht; subst; clear Ht; red_c. exact (ac_andb x y Hgx Hgy).
   Qed.
   Lemma s_or_b x y : cstmt x -> cstmt y -> cstmt (MOrB x y).
   Proof.
     intros IHx IHy t Ht Hwf. two_children IHx IHy Ht Hwf t1 t2 Hgx Hgy.
     destruct dx; cbn [negb] in Ht; try discriminate. destruct d2; cbn [negb] in Ht; try discriminate.
-    destruct bx, b2; try discriminate; inversion Ht; subst; clear Ht; red_c. exact (c_orb x y Hgx Hgy).
+    destruct bx, b2; try discriminate; inversion Ht; subst; clear Ht; red_c. exact (ac_orb x y Hgx Hgy).
   Qed.
   Lemma s_or_c x y : cstmt x -> cstmt y -> cstmt (MOrC x y).
   Proof.
     intros IHx IHy t Ht Hwf. two_children IHx IHy Ht Hwf t1 t2 Hgx Hgy.
     destruct dx; cbn [negb] in Ht; try discriminate. destruct ux; cbn [negb] in Ht; try discriminate.
-    destruct bx, b2; try discriminate; inversion Ht; subst; clear Ht; red_c. exact (c_orc x y Hgx Hgy).
+    destruct bx, b2; try discriminate; inversion Ht; subst; clear Ht; red_c. exact (ac_orc x y Hgx Hgy).
   Qed.
   Lemma s_or_d x y : cstmt x -> cstmt y -> cstmt (MOrD x y).
   Proof.
     intros IHx IHy t Ht Hwf. two_children IHx IHy Ht Hwf t1 t2 Hgx Hgy.
     destruct dx; cbn [negb] in Ht; try discriminate. destruct ux; cbn [negb] in Ht; try discriminate.
-    destruct bx, b2; try discriminate; inversion Ht; subst; clear Ht; red_c. exact (c_ord x y Hgx Hgy).
+    destruct bx, b2; try discriminate; inversion Ht; subst; clear Ht; red_c. exact (ac_ord x y Hgx Hgy).
   Qed.
   Lemma s_or_i x y : cstmt x -> cstmt y -> cstmt (MOrI x y).
   Proof.
     intros IHx IHy t Ht Hwf. two_children IHx IHy Ht Hwf t1 t2 Hgx Hgy.
     destruct bx, b2; try discriminate; inversion Ht; subst; clear Ht; red_c.
-    - exact (c_ori_B x y Hgx Hgy).
-    - exact (c_ori_K x y Hgx Hgy).
-    - exact (c_ori_V x y Hgx Hgy).
+    - exact (ac_ori_B x y Hgx Hgy).
+    - exact (ac_ori_K x y Hgx Hgy).
+    - exact (ac_ori_V x y Hgx Hgy).
   Qed.
   Lemma s_andor a b c : cstmt a -> cstmt b -> cstmt c -> cstmt (MAndOr a b c).
   Proof.
     intros IHa IHb IHc t Ht Hwf.
     cbn [type_of] in Ht. apply rbind_ok in Ht. destruct Ht as [ta [Ha Ht]].
-    apply rbind_ok in Ht. destruct Ht as [tb [Hb Ht]]. apply rbind_ok in Ht. destruct Ht as [tc [Hc Ht]].
+    apply rbind_ok in Ht. destruct Ht as [dn_tb [Hb Ht]]. apply rbind_ok in Ht. destruct Ht as [tc [Hc Ht]].
     cbn [wf] in Hwf. destruct Hwf as [Hwa [Hwb Hwc]].
-    pose proof (IHa ta Ha Hwa) as Hga. pose proof (IHb tb Hb Hwb) as Hgb. pose proof (IHc tc Hc Hwc) as Hgc.
-    destruct ta as [[ba ia da ua] ma], tb as [[bb ib db ub] mb], tc as [[bc ic dc uc] mc]. unf Ht.
+    pose proof (IHa ta Ha Hwa) as Hga. pose proof (IHb dn_tb Hb Hwb) as Hgb. pose proof (IHc tc Hc Hwc) as Hgc.
+    destruct ta as [[ba ia da ua] ma], dn_tb as [[bb ib db ub] mb], tc as [[bc ic dc uc] mc]. unf Ht.
     destruct da; cbn [negb] in Ht; try discriminate. destruct ua; cbn [negb] in Ht; try discriminate.
     destruct ba, bb, bc; try discriminate; inversion Ht; subst; clear Ht; red_c.
-    - exact (c_andor_B a b c Hga Hgb Hgc).
-    - exact (c_andor_K a b c Hga Hgb Hgc).
-    - exact (c_andor_V a b c Hga Hgb Hgc).
+    - exact (ac_andor_B a b c Hga Hgb Hgc).
+    - exact (ac_andor_K a b c Hga Hgb Hgc).
+    - exact (ac_andor_V a b c Hga Hgb Hgc).
   Qed.
 
   Lemma s_thresh k xs : Forall cstmt xs -> cstmt (MThresh k xs).
@@ -533,7 +533,7 @@ Section Complete.
     intros IH t Ht Hwf. cbn [type_of] in Ht. fold (tys_of xs) in Ht.
     apply rbind_ok in Ht. destruct Ht as [ts [Hts Ht]]. apply tys_of_ok in Hts.
     cbn [wf] in Hwf. destruct Hwf as [Hk [Hn Hwf]].
-    assert (Hall : Forall2 (fun x t => comp x t) xs ts).
+    assert (Hall : Forall2 (fun x t => dn_comp x t) xs ts).
     { clear Ht Hk Hn. revert ts Hts Hwf. induction IH as [|x r Hx Hr IHr]; intros ts Hts Hwf.
       - inversion Hts. constructor.
       - inversion Hts as [|x' t' r' ts' Hxt Hrt]; subst. destruct Hwf as [Hw1 Hw2].
@@ -547,29 +547,29 @@ Section Complete.
     rewrite (Lt eq_refl) in Ec. inversion Ec; subst; clear Ec.
     apply andb_prop in Eok. destruct Eok as [Ok0 Okr].
     unfold child_ok in Ok0. destruct t0 as [[b0 i0 d0 u0] m0]. cbn [t_corr c_base c_unit c_dissat] in Ok0.
-    destruct b0, u0, d0; try discriminate. unfold comp in Hg0. cbn [t_corr c_base] in Hg0.
+    destruct b0, u0, d0; try discriminate. unfold dn_comp in Hg0. cbn [t_corr c_base] in Hg0.
     assert (HW : Forall cW r).
     { clear -Hrest Okr. induction Hrest as [|x t r ts Hg Hr IHr]; [constructor|].
       cbn [map forallb] in Okr. apply andb_prop in Okr. destruct Okr as [O1 O2].
       constructor; [|apply IHr, O2]. unfold child_ok in O1. destruct t as [[b i d u] m].
       cbn [t_corr c_base c_unit c_dissat] in O1. destruct b, u, d; try discriminate. exact Hg. }
-    unfold comp. cbn [t_corr c_base]. apply c_thresh; auto; cbn [length] in *; lia.
+    unfold dn_comp. cbn [t_corr c_base]. apply ac_thresh; auto; cbn [length] in *; lia.
   Qed.
 
   Theorem denot_complete_inv : forall m, cstmt m.
   Proof.
     induction m using ms_ind'.
-    - intros t Ht _. inversion Ht; subst. exact c_true.
-    - intros t Ht _. inversion Ht; subst. exact c_false.
-    - intros t Ht _. inversion Ht; subst. exact (c_pk_k k).
-    - intros t Ht _. inversion Ht; subst. exact (c_pk_h k).
-    - intros t Ht _. inversion Ht; subst. exact (c_raw h).
-    - intros t0 Ht Hwf. inversion Ht; subst. exact (c_after t Hwf).
-    - intros t0 Ht Hwf. inversion Ht; subst. exact (c_older t Hwf).
-    - intros t Ht _. inversion Ht; subst. intros s w v HR. exact (c_hash_gen OP_SHA256 (e_sha256 e) h s w v (fun x r al => eq_refl) HR).
-    - intros t Ht _. inversion Ht; subst. intros s w v HR. exact (c_hash_gen OP_HASH256 (e_hash256 e) h s w v (fun x r al => eq_refl) HR).
-    - intros t Ht _. inversion Ht; subst. intros s w v HR. exact (c_hash_gen OP_RIPEMD160 (e_ripemd160 e) h s w v (fun x r al => eq_refl) HR).
-    - intros t Ht _. inversion Ht; subst. intros s w v HR. exact (c_hash_gen OP_HASH160 (e_hash160 e) h s w v (fun x r al => eq_refl) HR).
+    - intros t Ht _. inversion Ht; subst. exact ac_true.
+    - intros t Ht _. inversion Ht; subst. exact ac_false.
+    - intros t Ht _. inversion Ht; subst. exact (ac_pk_k k).
+    - intros t Ht _. inversion Ht; subst. exact (ac_pk_h k).
+    - intros t Ht _. inversion Ht; subst. exact (ac_raw h).
+    - intros t0 Ht Hwf. inversion Ht; subst. exact (ac_after t Hwf).
+    - intros t0 Ht Hwf. inversion Ht; subst. exact (ac_older t Hwf).
+    - intros t Ht _. inversion Ht; subst. intros s w v HR. exact (ac_hash_gen OP_SHA256 (e_sha256 e) h s w v (fun x r al => eq_refl) HR).
+    - intros t Ht _. inversion Ht; subst. intros s w v HR. exact (ac_hash_gen OP_HASH256 (e_hash256 e) h s w v (fun x r al => eq_refl) HR).
+    - intros t Ht _. inversion Ht; subst. intros s w v HR. exact (ac_hash_gen OP_RIPEMD160 (e_ripemd160 e) h s w v (fun x r al => eq_refl) HR).
+    - intros t Ht _. inversion Ht; subst. intros s w v HR. exact (ac_hash_gen OP_HASH160 (e_hash160 e) h s w v (fun x r al => eq_refl) HR).
     - apply s_alt; assumption.
     - apply s_swap; assumption.
     - apply s_check; assumption.
@@ -588,15 +588,15 @@ Section Complete.
     - (* multi *) intros t Ht Hwf. inversion Ht; subst. cbn [wf] in Hwf. destruct Hwf as [Hk [Hn [Htap _]]].
       intros s w v HR. cbn [Rg] in HR. cbn [enc].
       rewrite <- (map_map (kb ke) IPush ks), <- (map_length (kb ke) ks).
-      apply c_cms; try rewrite map_length; assumption.
+      apply ac_cms; try rewrite map_length; assumption.
     - (* sortedmulti *) intros t Ht Hwf. inversion Ht; subst. cbn [wf] in Hwf. destruct Hwf as [Hk [Hn [Htap Hlen]]].
       intros s w v HR. cbn [Rg] in HR. cbn [enc].
       rewrite <- (map_map (kb ke) IPush (ksort ke ks)), <- Hlen, <- (map_length (kb ke) (ksort ke ks)).
-      apply c_cms; try rewrite map_length, Hlen; assumption.
+      apply ac_cms; try rewrite map_length, Hlen; assumption.
     - (* multi_a *) intros t Ht Hwf. inversion Ht; subst. cbn [wf] in Hwf. destruct Hwf as [Hk [Hn [Htap _]]].
-      intros s w v HR. cbn [Rg] in HR. cbn [enc]. apply (c_multi_a_gen k ks Hk Hn Htap s w v HR).
+      intros s w v HR. cbn [Rg] in HR. cbn [enc]. apply (ac_multi_a_gen k ks Hk Hn Htap s w v HR).
     - (* sortedmulti_a *) intros t Ht Hwf. inversion Ht; subst. cbn [wf] in Hwf. destruct Hwf as [Hk [Hn [Htap Hlen]]].
       intros s w v HR. cbn [Rg] in HR. cbn [enc].
-      apply (c_multi_a_gen k (ksort ke ks) ltac:(rewrite Hlen; exact Hk) ltac:(rewrite Hlen; exact Hn) Htap s w v HR).
+      apply (ac_multi_a_gen k (ksort ke ks) ltac:(rewrite Hlen; exact Hk) ltac:(rewrite Hlen; exact Hn) Htap s w v HR).
   Qed.
 End Complete.
